@@ -235,7 +235,34 @@ def check_C10(tier, seed, rest):
     t0 = time.time()
     r = engine_a(tier, seed, "lit", literal_corpus(tier, seed))
     v = [as_violation(f) for f in r["findings"] if f["kind"] in ("munch", "err_span", "eoi", "crash", "partial_wrong")]
-    finish("C10", tier, seed, "model_checking", a_coverage(r, {"rule": "literal corpus: #[token] literals over regex metacharacters, cased non-ASCII, arbitrary bytes, with and without ignore(case), in token/regex/skip position; reference = hand-built byte chain, or per-character simple case folding; then Attempt.tla + replay"}), v, t0, ASSUME_A)
+    # "... and nothing else about the definition changes": every definition with ignore(case) next to the same definition
+    # without the flag; apart from the pattern, every leaf must be the same (priority, kind, variant, callback)
+    import copy
+    flagged, plain = [], []
+    for d in literal_corpus(tier, seed) + [corpus.mk("icprio%d" % k, [corpus.tok(w, icase=True), corpus.rx("[a-z]", prio=1)]) for k, w in enumerate(["\u00e9t\u00e9", "\u00e0", "k", "stra\u00dfe", "\u03c3\u03c2", "a\u20acb"])] \
+            + [corpus.mk("icprios%d" % k, [corpus.rx("[0-9]", prio=1)], [corpus.skip(w, icase=True)]) for k, w in enumerate(["\u00e9+", "[\u00e0a]x", "k\u00df"])]:
+        attrs = [a for var in d["vars"] for a in var["attrs"]] + list(d["skips"])
+        if not any(a.get("icase") for a in attrs):
+            continue
+        tw = copy.deepcopy(d)
+        tw["id"] = d["id"] + "__noic"
+        for a in [a for var in tw["vars"] for a in var["attrs"]] + list(tw["skips"]):
+            a.pop("icase", None)
+        flagged.append(d)
+        plain.append(tw)
+    _, fm, _ = capture(flagged + plain, "litflag")
+    n_flag = 0
+    for m1, m2 in zip(fm[:len(flagged)], fm[len(flagged):]):
+        if not (m1["captured_leaves"] and m2["captured_leaves"]):
+            continue            # rejected before the leaves exist (e.g. the flag creates an ambiguity): nothing to compare
+        n_flag += 1
+        strip = lambda ls: [{k: x[k] for k in x if k != "pattern"} for x in ls]
+        if strip(m1["captured_leaves"]) != strip(m2["captured_leaves"]):
+            diff = [(a, b) for a, b in zip(m1["captured_leaves"], m2["captured_leaves"]) if {k: a[k] for k in a if k != "pattern"} != {k: b[k] for k in b if k != "pattern"}]
+            v.append({"key": "%s:flag-changes-more" % m1["id"], "what": "ignore(case) changes more than the language of the pattern: %s" % (diff[:2],), "definition": m1["src"], "without_flag": m2["src"]})
+    if n_flag == 0:
+        raise ToolError("C10: no definition with ignore(case) was compared with its twin without the flag")
+    finish("C10", tier, seed, "model_checking", a_coverage(r, {"flag_twins_compared": n_flag, "rule": "literal corpus: #[token] literals over regex metacharacters, cased non-ASCII, arbitrary bytes, with and without ignore(case), in token/regex/skip position; reference = hand-built byte chain, or per-character simple case folding; then Attempt.tla + replay"}), v, t0, ASSUME_A)
 
 
 def sub_icase_defs():
